@@ -122,6 +122,10 @@ func init() {
 			files["/sys/firmware/efi/efivars/"+name+"-"+canonGUIDText(*v.GUID)] = &fstest.MapFile{Data: append(v.Attributes.Bytes(), unhx(val)...)}
 		}
 		fs := t.With(files).Open()
+		if a["direct"] == "1" && len(pre) == 0 {
+			// the store handed to efivarfs.Open directly (TestFS implements efivarfs.EFIVars), without TestFS.Open()
+			fs = efivarfs.Open(testfs.NewTestFS())
+		}
 		var out []string
 		for _, op := range ops {
 			v := storeVarDesc(op.Var, op.Desc)
@@ -162,7 +166,7 @@ func c12Eval(c *Ctx, cs Case) {
 	json.Unmarshal(opsJ, &ops)
 	var pre map[string]string
 	json.Unmarshal(preJ, &pre)
-	res := c12Worker.Do("store.history", map[string]string{"ops": string(opsJ), "pre": string(preJ), "verif": c.VerifDir}, 30*time.Second)
+	res := c12Worker.Do("store.history", map[string]string{"ops": string(opsJ), "pre": string(preJ), "verif": c.VerifDir, "direct": fmt.Sprint(cs.I("direct"))}, 30*time.Second)
 	c.Count(cs.Key(), len(ops) >= 2, fmt.Sprintf("store/len%d/%s", (len(ops)+3)/4*4, res.Class))
 	if len(ops) <= 5 {
 		c.Sample(cs)
@@ -310,7 +314,11 @@ func c12Gen(c *Ctx) {
 				pre["OrdA"] = raws[c.Rng.Intn(len(raws))]
 			}
 		}
-		c12Eval(c, Case{"op": "store-history", "pre": pre, "ops": ops})
+		cs := Case{"op": "store-history", "pre": pre, "ops": ops}
+		if len(pre) == 0 && i%4 == 1 {
+			cs["direct"] = int64(1) // efivarfs.Open(testfs.NewTestFS()) instead of NewTestFS().Open()
+		}
+		c12Eval(c, cs)
 	}
 }
 
